@@ -265,10 +265,13 @@ def main():
         d = float(tb.delta())
         sc = hm.score(yt, yp).numpy()
         ts = float(hm.trial_size_metric(hm.trial_size)(yt, yp).numpy())
-        events.append({"kind": "score", "ref": int(round(float(tb.reference_size))), "trial": int(tb.trial_size), "sign": int(np.sign(d)),
+        # the reference the bonus is computed against: stress x size of the reference model (sized by a fresh target)
+        refexp = stress * float(ForgivingFactorBits(8, 8, 2, stress=1.0, config={"default": ["parameters", "activations"]}).compute_model_size(m)[0])
+        events.append({"kind": "score", "ref": int(round(float(tb.reference_size))), "refexp": int(round(refexp)),
+                       "trial": int(tb.trial_size), "sign": int(np.sign(d)),
                        "d32": dy(np.float32(d)), "m": mvec, "score": [dy(v) for v in sc], "trialsize": int(ts)})
   for ev in events:
-    for k, v in (("arch", 1), ("d32", [0, 0]), ("m", []), ("score", []), ("trialsize", 0), ("idx", []), ("calls", []), ("res", []), ("ref", 0), ("trial", 0), ("sign", 0), ("delta", [0, 0]), ("series", 0),
+    for k, v in (("arch", 1), ("d32", [0, 0]), ("m", []), ("score", []), ("trialsize", 0), ("idx", []), ("calls", []), ("res", []), ("ref", 0), ("refexp", -1), ("trial", 0), ("sign", 0), ("delta", [0, 0]), ("series", 0),
                  ("total", 0), ("elems", []), ("bits", [])):
       ev.setdefault(k, v)
   write_ndjson("%s.%d.ndjson" % (prefix, shard), events)
